@@ -291,11 +291,18 @@ def known_findings():
     return res
 
 
+def evidence_dir():
+    d = os.path.join(VERIF, "evidence") if "VERIF_REPO" not in os.environ else os.path.join(tempfile.gettempdir(), "verif-evidence-other-tree")
+    os.makedirs(d, exist_ok=True)
+    return d
+
+
 def write_evidence(pid, tier, level, coverage, wall, violations, assumptions=()):
-    os.makedirs(os.path.join(VERIF, "evidence"), exist_ok=True)
+    # evidence describes runs against /repo; a run redirected to another tree (VERIF_REPO, used to try seeded changes) writes elsewhere
+    evdir = evidence_dir()
     ev = dict(property_id=pid, tier=tier, seed=seed(), level=level, coverage=coverage,
               assumptions=list(assumptions), wall_s=round(wall, 2), violations=violations)
-    with open(os.path.join(VERIF, "evidence", pid + ".json"), "w") as f:
+    with open(os.path.join(evdir, pid + ".json"), "w") as f:
         json.dump(ev, f, indent=1, sort_keys=True)
         f.write("\n")
 
